@@ -253,6 +253,10 @@ def run_world(plan, keep=False):
                             wanted = [('report', tuple(rec.get('opts', [])))]
                         elif kind == 'OBS_CMDLINE' or 'exc:cmdline' in sec:
                             wanted = [('cmdline',)]
+                        elif kind == 'OBS_BASIC' or 'exc:basic' in sec:
+                            wanted = [('basic', op[1])]
+                        elif kind == 'OBS_MISC' or 'exc:misc' in sec:
+                            wanted = [('misc',)]
                         else:
                             wanted = []
                         ora = oracle_api(ti, point, wanted)
